@@ -298,9 +298,18 @@ def build_module(design, mname, built):
             old = ns[rs]
             new = h.Signal(width=old.width, vis=old.vis, direction=old.direction)
             setattr(m, rs, new)  # a new object under the same name; the connections made so far keep the old one
-    for rm, ri, rp in design.get("reads", []):
+    for rd in design.get("reads", []):
+        rm, ri, rp = rd[:3]
+        how = rd[3] if len(rd) > 3 else "read"
         if rm == mname:
-            getattr(ns[ri], rp)  # a look at the port, nothing else
+            ref = getattr(ns[ri], rp)  # a look at the port, nothing else
+            if how == "slice":
+                ref[0]
+            elif how == "concat":
+                h.Concat(ref, ref)
+            elif how == "discarded":
+                # an instance of the same cell, tied to the port by reference, which never becomes part of any module
+                ns[ri].of(**{rp: ref})
     return m
 
 
